@@ -648,9 +648,11 @@ def mon_C12(h):
             for i in prev.get("logs") or []:
                 if i in after and i not in sn["logs"]:
                     bad.append((k, "the logs of the kept job %d are gone" % i))
+            # jobs that were in the store when the process started: once they are neither reported nor stored their logs have to be gone
+            # (jobs that were lost by a restart before any save reached the store are nobody's "removed jobs": their logs are not judged)
             for i in sn["logs"]:
-                if i not in after:
-                    bad.append((k, "after the save the log directory of job %d is still there although the job is not reported (any more)" % i))
+                if i not in after and i in ages:
+                    bad.append((k, "after the save the log directory of job %d (loaded from the store at start) is still there although the job is neither reported nor stored" % i))
         prev = sn
     return bad
 
